@@ -134,6 +134,9 @@ func c05Timeline(period int64) L1Builder {
 			if !res.OK {
 				return nil
 			}
+			if r.Chance(15) { // the same message once more, byte for byte: must be refused without effect
+				resubmitExact(sc, len(c.Ops)-1)
+			}
 			return &c05Focus{b: b, idx: next, t: sc.Now, tree: pt, used: map[int]bool{}}
 		}
 		claim := func(f *c05Focus, fresh bool) {
@@ -319,6 +322,7 @@ func genC05(seed uint64, tier, outdir string) *Report {
 	w := DefaultL1Weights
 	w.Propose, w.Claim, w.Delete, w.AdvanceChance = 20, 30, 8, 55
 	texts = append(texts, runRandomL1(rep, tt, seed+4242, nT+1, nR, length, w, twoBridgeSetup(sec, 2*sec+500000000), mons, []string{"propose", "finalize"})...)
+	c05Admission(rep, seed, len(texts)+100)
 	// one long log per run: more than 100 pending outputs above the deleted index
 	fill, dels := 104, []int{[]int{101, 102, 103}[seed%3]}
 	if tier == "thorough" {
